@@ -453,6 +453,7 @@ fn arc_answer(id: u32) -> Arc<UAnswerFn> {
         log(LogEv::Answer(id, x));
         if (LENDING_ANSWER_ID..PANICKING_ANSWER_ID).contains(&id) {
             // the answer parks a derived instance in the value chain of the instance it runs on
+            #[cfg(not(feature = "nolock"))]
             let _lent: &Unimock = u.make_ref(u.clone());
         }
         if id >= PANICKING_ANSWER_ID {
